@@ -2,6 +2,9 @@
  *
  * PV_RNG_OK=<n>: the first n calls of getrandom() that ask for key-sized output (flags == 0, length >= 16) succeed,
  * every later one fails with EIO. Calls with other flags (the standard library seeding its hash maps) always succeed.
+ * PV_RNG_PATTERN=<k>: instead of failing, key-sized requests are SERVED with chosen bytes - unusual but perfectly legal
+ * outputs of a random source, all different from each other (an 8-byte call counter sits in the middle):
+ *   1 four leading zero bytes, 2 all 0xff around the counter, 3 four trailing zero bytes, 4 all zero around the counter.
  * Both the libc wrapper and the raw syscall(SYS_getrandom, ...) entry are covered. */
 #define _GNU_SOURCE
 #include <dlfcn.h>
@@ -14,6 +17,25 @@
 
 static long budget = -2;
 static long served = 0;
+
+static long pattern = -2;
+static unsigned long long calls = 0;
+
+/* 1 = served with a pattern */
+static int serve_pattern(void *buf, size_t len, unsigned int flags) {
+  if (pattern == -2) {
+    const char *e = getenv("PV_RNG_PATTERN");
+    pattern = e ? atol(e) : -1;
+  }
+  if (pattern <= 0 || flags != 0 || len < 16) return 0;
+  unsigned char *b = (unsigned char *)buf;
+  unsigned long long c = ++calls;
+  for (size_t i = 0; i < len; i++) b[i] = (pattern == 2) ? 0xff : (pattern == 4 ? 0x00 : (unsigned char)(0xa5 ^ (i * 7)));
+  for (int i = 0; i < 8; i++) b[len / 2 - 4 + i] = (unsigned char)(c >> (8 * i)) ^ (pattern == 2 ? 0xff : 0);
+  if (pattern == 1) for (int i = 0; i < 4; i++) b[i] = 0;
+  if (pattern == 3) for (int i = 0; i < 4; i++) b[len - 1 - i] = 0;
+  return 1;
+}
 
 static int should_fail(size_t len, unsigned int flags) {
   if (budget == -2) {
@@ -29,6 +51,7 @@ static int should_fail(size_t len, unsigned int flags) {
 ssize_t getrandom(void *buf, size_t len, unsigned int flags) {
   static ssize_t (*real)(void *, size_t, unsigned int) = 0;
   if (!real) real = (ssize_t(*)(void *, size_t, unsigned int))dlsym(RTLD_NEXT, "getrandom");
+  if (serve_pattern(buf, len, flags)) return (ssize_t)len;
   if (should_fail(len, flags)) {
     errno = EIO;
     return -1;
@@ -43,6 +66,7 @@ long syscall(long number, ...) {
   va_start(ap, number);
   long a = va_arg(ap, long), b = va_arg(ap, long), c = va_arg(ap, long), d = va_arg(ap, long), e = va_arg(ap, long), f = va_arg(ap, long);
   va_end(ap);
+  if (number == SYS_getrandom && serve_pattern((void *)a, (size_t)b, (unsigned int)c)) return b;
   if (number == SYS_getrandom && should_fail((size_t)b, (unsigned int)c)) {
     errno = EIO;
     return -1;
